@@ -263,7 +263,8 @@ class Samples:
         if self.filetype == "HDF5":
             return self._hdf5_filehandle["samples"][-1, self.burn_in :][:, None]
         elif self.filetype == "NPY":
-            return self.numpy[-1, :]
+            # One column, as for HDF5
+            return self.numpy[-1, :][:, None]
         else:
             raise AttributeError(f"Unkown filetype `{self.filetype}`.")
 
